@@ -22,7 +22,10 @@ MANIFEST = dict(
          'interpreter, every input set, every processing order: after UniqueNameGenerator.reset() the i-th name is prefix+base+'
          '(number of earlier calls with the same (key, base) in THIS file)+suffix; memo tables (lru_cache, any maxsize, cleared at '
          'any time) are transparent; the object built for a type is the same in every input set that contains its dependency '
-         'closure; the template selected for a file is the nearest one of its pydsdl class chain in the generator\'s listing, '
+         'closure; every memoisation / mutable-state site of src/nunavut (regenerated inventory: lru_cache, cached_property, memos, '
+         'lazy fields, singletons, mutable containers, global) is of a kind covered by the transparency lemmas or a listed finding, '
+         'and is in the reviewed inventory; a file ending in a non-blank line leaves every LimitEmptyLines counter at 0; the '
+         'template selected for a file is the nearest one of its pydsdl class chain in the generator\'s listing, '
          'whatever the loader memo saw before (C16 lemmas imported; class graph a forest: hypothesis, tested per run); with the '
          'translated per-file reset of the line processors the file is the same in any two histories (C10_file_indep, no side '
          'condition); for the variant without that reset (code before 88d3c81): the content of a file equals the content the same type gets as the first and only file of a new interpreter '
@@ -34,7 +37,8 @@ MANIFEST = dict(
          '(user template SETS named after random levels of the pydsdl hierarchy, each file carrying a marker naming the template, '
          'written from random scripts over structs/unions/services/delimited types: exact bytes and selected template; built-in c/cpp/py/html templates: recorded chunk streams '
          'replayed through the model, exact bytes) over whole namespace / dependency-closed subsets / permuted order / second '
-         'runs / other-option generators / cleared caches in one interpreter and against new interpreters.',
+         'runs / other-option generators / cleared caches / a REDEFINED variant of the namespace / every type rendered first by a new '
+         'generator, in one interpreter and against new interpreters.',
     note='Trusted: Coq kernel; T2 translators (pyfun_tr.py, gen_c10.py); extraction (ExtrOcamlBasic only) + ocaml/c10_driver.ml; '
          'the signature of `render` (a template sees process state only through the unique-name generator and memoised pure '
          'methods) is an assumption, tested by the byte comparison of real runs, not proved. Namespace (__init__/index) files '
@@ -812,6 +816,10 @@ def main(chk: core.Check, replay: typing.Optional[str] = None) -> int:
     else:
         broken.append('F-DEPBUILDER-STALE probe did not run: %s' % (d_errs[:1] or len(d_entries)))
 
+    def canon(lang_: str, text: str) -> str:
+        # while F-PY-PICKLE-MEMO reproduces the length (hence the number of lines) of the _MODEL_ blob varies with the history
+        return mask_blob(text) if (lang_ == 'py' and memo_live) else text
+
     # 4. compare
     stats = {'histories': len(hists), 'script_histories': 0, 'builtin_histories': 0, 'files': 0, 'files_by_lang': {},
              'model_vs_impl_compared': 0, 'oracle_vs_impl_compared': 0, 'known_finding_instances': 0,
@@ -850,7 +858,7 @@ def main(chk: core.Check, replay: typing.Optional[str] = None) -> int:
                 else:
                     ch = builtin_chunks.get((v['lang'], c, t))
                     if ch is not None:
-                        tables[(c, t)] = [['t', skel(''.join(ch))]]
+                        tables[(c, t)] = [['t', skel(canon(v['lang'], ''.join(ch)))]]
         cls_of = {e['mkey']: e['cls'] for e in entries if e.get('cls')}
         requests.append(model_request(h.all_deps(), tables, lang_of_cfg, ops, resets_fact, lel_shared, r_forest[id(h)], cls_of,
                                       h.markers))
@@ -937,7 +945,7 @@ def main(chk: core.Check, replay: typing.Optional[str] = None) -> int:
                 stats['known_finding_instances'] += 1
                 stats['pickle_memo_instances'] = stats.get('pickle_memo_instances', 0) + 1
             elif e['text'] != expect:
-                if lel_suppress and trigger and me is not None and me['text'] == (e['text'] if h.kind == 'script' else skel(e['text'])) and not me['clean']:
+                if lel_suppress and trigger and me is not None and me['text'] == (e['text'] if h.kind == 'script' else skel(canon(lang, e['text']))) and not me['clean']:
                     stats['known_finding_instances'] += 1
                 else:
                     bad_oracle.append({'history': h.name, 'file_index': i, 'type': e['key'], 'lang': lang, 'expected': expect,
@@ -946,7 +954,7 @@ def main(chk: core.Check, replay: typing.Optional[str] = None) -> int:
             # --- model vs. implementation
             if me is not None:
                 stats['model_vs_impl_compared'] += 1
-                if me['key'] != e['mkey'] or me['text'] != (e['text'] if h.kind == 'script' else skel(e['text'])):
+                if me['key'] != e['mkey'] or me['text'] != (e['text'] if h.kind == 'script' else skel(canon(lang, e['text']))):
                     bad_model.append({'history': h.name, 'file_index': i, 'type': e['key'], 'model': me['text'], 'implementation': e['text'],
                                       'job': h.job()})
 
